@@ -31,7 +31,14 @@ VALUES = {"quick": 5, "thorough": 10}
 SITES = {"quick": 14, "thorough": 40}
 
 
+
 def shards(tier, seed):
+    from vf import engine
+
+    return engine.with_interpreter_options(_plain_shards(tier, seed))
+
+
+def _plain_shards(tier, seed):
     return campaign.tree_shards(TREES[tier], 3 if tier == "quick" else 16)
 
 
